@@ -5,6 +5,8 @@
    [run_sends false t0 h] = initial RA at t0 followed by what the scheduler transmits.  The final
    zero-lifetime RA is not produced by the scheduler (C08). *)
 From CR Require Import Model.Sched Proofs.Sched.
+(* the code computes instants and durations on one clock (extracted): one_clock in Properties/Clock.v *)
+From CR Require Properties.Clock.
 From Coq Require Import Lia.
 Local Open Scope Z_scope.
 
